@@ -430,14 +430,18 @@ def captured_expressions():
     return tk.extractors, rec.compiled[0], dict(it.encoded)
 
 
-def equiv_job(args):
+def equiv_job_retry(args):
+    return equiv_job(args, budget=8)
+
+
+def equiv_job(args, budget=1):
     a, b, flags = args
     try:
         Ra, Rb = rex.translate(a, flags), rex.translate(b, flags)
     except rex.Unsupported as ex:
         return ("unsupported:" + str(ex), None)
     for x, y in ((Ra, Rb), (Rb, Ra)):
-        v, w = rex.solve_in(z3.Intersect(rex.search_lang(x), z3.Complement(rex.search_lang(y))), timeout_ms=60000, seed=common.seed())
+        v, w = rex.solve_in(z3.Intersect(rex.search_lang(x), z3.Complement(rex.search_lang(y))), timeout_ms=60000 * budget, seed=common.seed())
         if v != "unsat":
             return (v, rex.z3_unescape(w) if w else None)
     return ("unsat", None)
@@ -509,6 +513,14 @@ def check(rep):
         if perr:
             rep.inconc("pattern equivalence queries: " + perr)
             res = [("unknown:" + perr, None)] * len(uniq)
+        # a loaded machine must not turn into 'unknown': second pass for those, fewer processes, 8x the limit
+        again = [k for k, r in enumerate(res) if r[0] == "unknown"]
+        if again and not perr:
+            res2, perr2 = common.pmap(equiv_job_retry, [uniq[k] for k in again], procs=6, timeout=3000, chunk=1)
+            if not perr2:
+                res = list(res)
+                for k, r in zip(again, res2):
+                    res[k] = r
         bad = [(j, r) for j, r in zip(uniq, res) if r[0] != "unsat"]
         rep.sections["pattern_conversion"] = {"extractors": len(exts), "identical_after_conversion": same, "changed": len(jobs), "distinct_changed": len(uniq), "equivalence_verdicts": {k: sum(1 for r in res if r[0] == k) for k in {r[0] for r in res}}, "flag_mismatches": len(flag_bad)}
         rep.queries += 2 * len(uniq)
